@@ -181,9 +181,12 @@ func mutField(rng *hlib.Rng, m protoreflect.Message) string {
 	}
 	var fd protoreflect.FieldDescriptor
 	// prefer populated fields
-	for try := 0; try < 4; try++ {
+	for try := 0; try < 6; try++ {
 		fd = fds.Get(rng.Intn(fds.Len()))
-		if m.Has(fd) {
+		if fd.Kind() == protoreflect.MessageKind && try < 5 && !rng.Chance(25) {
+			continue // sub-messages are visited on their own; clearing them is the rarer case
+		}
+		if m.Has(fd) || try >= 3 {
 			break
 		}
 	}
